@@ -40,15 +40,20 @@ impl SrtlaRegistrationManager {
             final(self).broadcast_reg2_pending == old(self).broadcast_reg2_pending, final(self).active_connections == old(self).active_connections,
             final(self).has_connected == old(self).has_connected,
     { unimplemented!() }
-    // `connections.iter().filter(|c| c.connected).count()`
-    #[verifier::external_body]
-    pub fn update_active_connections(&mut self, connections: &[SrtlaConnection])
-        ensures final(self).same_handshake(&SrtlaRegistrationManager { active_connections: final(self).active_connections, ..*old(self) }),
-            final(self).active_connections == spec_count_connected(connections@),
-    { unimplemented!() }
 }
 
 // ---------- housekeeping: spec layer ----------
+// ghost log of every datagram handed to an uplink socket by this housekeeping pass: (conn_id, bytes)
+pub open spec fn offered(sent: Seq<(u64, Seq<u8>)>, id: u64, bytes: Seq<u8>) -> bool { exists|k: int| 0 <= k < sent.len() && #[trigger] sent[k] == (id, bytes) }
+pub proof fn lemma_sent_push(s: Seq<(u64, Seq<u8>)>, x: (u64, Seq<u8>))
+    ensures offered(s.push(x), x.0, x.1), forall|id: u64, b: Seq<u8>| offered(s, id, b) ==> #[trigger] offered(s.push(x), id, b),
+{
+    assert(s.push(x)[s.len() as int] == x);
+    assert forall|id: u64, b: Seq<u8>| offered(s, id, b) implies #[trigger] offered(s.push(x), id, b) by {
+        let k = choose|k: int| 0 <= k < s.len() && #[trigger] s[k] == (id, b);
+        assert(s.push(x)[k] == (id, b));
+    }
+}
 pub open spec fn hk_link_wf(c: &SrtlaConnection) -> bool { win_ok(c.window) && c.batch_sender.wf() && (c.phase is Warming ==> c.phase->rtt_probes < 0xffff_ffff) }
 pub open spec fn hk_wf(conns: Seq<SrtlaConnection>) -> bool { forall|i: int| 0 <= i < conns.len() ==> hk_link_wf(&#[trigger] conns[i]) }
 // the link was NOT torn down by this pass: registration, accounting and liveness stamps are where they were
@@ -129,11 +134,14 @@ pub fn hk_count_active(connections: &[SrtlaConnection], current_ms: u64) -> (r: 
                post_rewrite=[('-> Result<()>', '-> Result<(), AnyhowError>', 1),
                              ('&mut HashMap<ConnectionId, ReaderHandle>', '&mut HashMap<u64, ReaderHandle>', 1), ('&UnboundedSender<UplinkPacket>', '&PacketTx', 1),
                              ('conn_io.get_mut(&conn.conn_id)', 'conn_io_get_mut(conn_io, conn.conn_id)', 1),
-                             ('io.socket.send(&pkt)', 'io_send_258(io, &pkt)', None), ('io.socket.send(&ka)', 'io_send_38(io, &ka)', None),
+                             ('io.socket.send(&pkt)', '({ proof { lemma_sent_push(sent, (conn.conn_id, pkt@)); sent = sent.push((conn.conn_id, pkt@)); } io_send_258(io, &pkt) })', None),
+                             ('io.socket.send(&ka)', '({ proof { lemma_sent_push(sent, (conn.conn_id, ka@)); sent = sent.push((conn.conn_id, ka@)); } io_send_38(io, &ka) })', None),
                              ('io.socket.clone()', 'io_socket_clone(io)', None),
                              (re.compile(r'anyhow!\("[^"]*"\)'), 'anyhow_err()', None)],
                requires=['hk_wf(old(connections)@)', 'now_ms < CLOCK_MAX', 'now_ms > 0'],
-               ensures=['final(connections).len() == old(connections).len()', 'hk_wf(final(connections)@)'],
+               ensures=['final(connections).len() == old(connections).len()', 'hk_wf(final(connections)@)',
+                        C('C07+C08.hk.gives_up_only_after_the_global_timeout_of_total_outage',
+                          'r is Err ==> (*final(all_failed_at)) is Some && *final(all_failed_at) == *old(all_failed_at) && sub_sat(now_ms, (*final(all_failed_at)).unwrap()) > GLOBAL_TIMEOUT_MS')],
                loops={
                    0: dict(inv=['i_nx <= connections.len()', 'connections.len() == old(connections).len()', 'hk_wf(connections@)', 'current_ms == now_ms', 'now_ms < CLOCK_MAX', 'now_ms > 0',
                                 'pre.len() == connections.len()', 'hk_wf(pre)',
@@ -143,9 +151,15 @@ pub fn hk_count_active(connections: &[SrtlaConnection], current_ms: u64) -> (r: 
                                 C('C14.hk.keepalive_sent_on_every_live_link_when_due', 'forall|j: int| 0 <= j < i_nx && keepalive_due(&pre[j], now_ms) ==> (#[trigger] connections[j]).last_keepalive_sent == Some(now_ms)'),
                                 ],
                            dec='connections.len() - i_nx'),
-                   1: dict(inv=['i_nx <= connections.len()', 'connections.len() == old(connections).len()', 'hk_wf(connections@)'], dec='connections.len() - i_nx'),
+                   1: dict(inv=['i_nx <= connections.len()', 'connections.len() == old(connections).len()', 'hk_wf(connections@)',
+                                C('C07.hk.reg2_round_is_offered_to_every_uplink_that_has_a_socket',
+                                  'forall|j: int| 0 <= j < i_nx && conn_io@.contains_key((#[trigger] connections[j]).conn_id) ==> offered(sent, connections[j].conn_id, pkt@)')],
+                           ens=[C('C07.hk.reg2_round_is_offered_to_every_uplink_that_has_a_socket',
+                                  'forall|j: int| 0 <= j < connections.len() && conn_io@.contains_key((#[trigger] connections[j]).conn_id) ==> offered(sent, connections[j].conn_id, pkt@)')],
+                           dec='connections.len() - i_nx'),
                },
                splices=[
+                   ('@BEGIN', '    let ghost mut sent: Seq<(u64, Seq<u8>)> = Seq::empty();', 'after'),
                    ('let mut i_nx: usize = 0;\n    while i_nx < connections.len()', 'let ghost pre = connections@;\n    let mut i_nx: usize = 0;\n    while i_nx < connections.len()', 'replace'),
                    ('let pkt = reg.build_reg1_for(i, current_ms);', '''proof {
                             assert(reg.pending_reg2_idx == Some(i));  // @ob C07.hk.reg1_is_resent_only_on_the_uplink_that_is_already_outstanding
